@@ -140,7 +140,10 @@ func (q c09Query) String() string {
 
 var (
 	c09Names = []string{"a.com", "A.COM.", "xa.com", "b.a.com", "a.com.evil", "a.org"}
-	c09V4s   = []string{"", "1.2.3.4", "1.2.3.9", "1.2.4.1"}
+	// "b4:" = the same address handed over as a 4-byte net.IP (what To4(), net.IP{a,b,c,d} and the
+	// system resolver produce) instead of the 16-byte form net.ParseIP returns (added after the
+	// independently seeded change C09-7: exact-IP rules compared with bytes.Equal)
+	c09V4s   = []string{"", "1.2.3.4", "1.2.3.9", "1.2.4.1", "b4:1.2.3.4", "b4:1.2.4.1"}
 	c09V6s   = []string{"", "::1"}
 	c09Ports = []int{53, 79, 80, 90, 91}
 )
@@ -171,6 +174,7 @@ func c09Probes() []c09Query {
 		{"a.com", "", "", c09ProtoTCP, 90},
 		{"a.com", "", "", c09ProtoUDP, 80},
 		{"a.com", "1.2.3.4", "", c09ProtoTCP, 80},
+		{"a.com", "b4:1.2.3.4", "", c09ProtoTCP, 80},
 		{"a.com", "", "::1", c09ProtoTCP, 80},
 		{"a.org", "", "", c09ProtoTCP, 80},
 		{"A.COM.", "", "", c09ProtoTCP, 80},
@@ -392,7 +396,7 @@ func c09RefAddrs(q c09Query) []netip.Addr {
 		if s == "" {
 			continue
 		}
-		a, err := netip.ParseAddr(s)
+		a, err := netip.ParseAddr(strings.TrimPrefix(s, "b4:"))
 		if err != nil {
 			panic("c09: bad query address " + s)
 		}
